@@ -40,8 +40,8 @@ fn elf_flags_to_prot(flags: u32) -> u32 {
     proc_flags
 }
 
-fn round_up_to_page_size(size: u64) -> u64 {
-    (size + 0xfff) & !0xfff
+fn round_up_to_page_size(size: u64) -> Option<u64> {
+    size.checked_add(0xfff).map(|size| size & !0xfff)
 }
 
 // TODO: System V ABI mentions %rdx should have "a function pointer that the application should register with atexit" at process entry
@@ -188,7 +188,12 @@ impl Axecutor {
                         segment.p_offset,
                     );
 
-                    let memsz = round_up_to_page_size(segment.p_memsz);
+                    let memsz = match round_up_to_page_size(segment.p_memsz) {
+                        Some(memsz) => memsz,
+                        None => {
+                            return Err(AxError::from("ELF: Segment memory size is too large"));
+                        }
+                    };
 
                     if memsz == segment.p_filesz {
                         axecutor.mem_init_area_named(
